@@ -193,7 +193,8 @@ pub fn call_op(fe: &mut Frontend, op: &str, cls: &str, v: u64, rng: &mut Rng) ->
                 "size0" => (0x100, 0),
                 "end_gt" => (0x1000 - 7, 8),
                 "wrap" => (u32::MAX - 3, 8),
-                "max" => (0x100, 0x1000 - 0x100),
+                // the largest payload a message can carry (header size field = 12 + 4084 = 4096), at offsets 0..=12
+                "max" => (rng.below(13) as u32, 0x1000 - 12),
                 _ => (0x100 * rng.below(8) as u32, 1 + rng.below(64) as u32),
             };
             let flags = VhostUserConfigFlags::from_bits_truncate(rng.below(4) as u32);
@@ -211,7 +212,7 @@ pub fn call_op(fe: &mut Frontend, op: &str, cls: &str, v: u64, rng: &mut Rng) ->
                 "size0" => (0x100, 0),
                 "end_gt" => (0x1000 - 7, 8),
                 "toolong" => (0, 0x1001),
-                "max" => (0x100, 0x1000 - 0x100 - 12),
+                "max" => (rng.below(13) as u32, 0x1000 - 12),
                 _ => (0x100 * rng.below(8) as u32, 1 + rng.below(64) as usize),
             };
             let flags = VhostUserConfigFlags::from_bits_truncate(rng.below(4) as u32);
